@@ -97,6 +97,10 @@ op("load_unaligned", "B::load_unaligned(p)", "p", ALL_TYPES)
 op("store_aligned", "(a.store_aligned(q), a)", "Bq", ALL_TYPES)
 op("store_unaligned", "(a.store_unaligned(q), a)", "Bq", ALL_TYPES)
 op("broadcast", "B(s)", "S", ALL_TYPES)
+# gather / scatter (same element type; index batch of the unsigned / signed integer type of the same width)
+op("gather", "B::gather(p, *(xsimd::batch<xsimd::as_unsigned_integer_t<T>, A> const*)(void const*)p_a)", "pB", ALL_TYPES)
+op("gather_s", "B::gather(p, *(xsimd::batch<xsimd::as_integer_t<T>, A> const*)(void const*)p_a)", "pB", ALL_TYPES)
+op("scatter", "(a.scatter(q, *(xsimd::batch<xsimd::as_unsigned_integer_t<T>, A> const*)(void const*)p_b), a)", "BqB", ALL_TYPES)
 # bool arrays <-> batch_bool
 op("bool_load_aligned", "xsimd::batch_bool<T, A>::load_aligned(pb)", "x", ALL_TYPES, "M")
 op("bool_load_unaligned", "xsimd::batch_bool<T, A>::load_unaligned(pb)", "x", ALL_TYPES, "M")
